@@ -296,6 +296,20 @@ def c20_run(ctx):
                           dict(engine="S", script=lines, first_disagreement=d))
 
 
+def c06_extra(ctx):
+    """HTTP access path: head-follow scoped to a context (engine H, streaming connection)"""
+    from . import httpengine as H2
+    r = H2.head_follow_probe()
+    foreign = [c for (c, t) in r["delivered"] if c != r["expected_ctx"]]
+    ctx.coverage["head_follow_probe"] = dict(delivered=len(r["delivered"]), foreign=len(foreign))
+    if foreign:
+        ctx.violation(f"GET /head/t?follow&context=B streamed {len(foreign)} frame(s) of another context (same topic appended in the "
+                      f"zero context) to the follower of context B", dict(engine="H", probe="head_follow_probe", result=str(r)[:600]))
+    elif len(r["delivered"]) < 2:
+        ctx.violation("head-follow probe delivered fewer frames than expected (current head + one live frame of context B)",
+                      dict(engine="H", probe="head_follow_probe", result=str(r)[:600], theorem_or_correspondence="engine H head-follow probe"), no_input=True)
+
+
 def seq_entry(prop_file, profile, footprint, nq, nt, level_text, extra_assumptions=(), run=None, **kw):
     return dict(prop_file=prop_file, run=run or seq_run(profile, footprint, nq, nt, **kw), replay=seq_replay(ALL_OPS),
                 level_text=level_text, level_note=TRUSTED + "Hypotheses of the theorems: see evidence.assumptions.",
@@ -316,8 +330,10 @@ REGISTRY = {
     "C06": seq_entry("Props/C06.v", P_CTX, {"readsync", "read", "head", "get"}, 200, 3000,
         "Coq (store-level paths): every frame returned by read_sync / streaming read / head scoped to context b has "
         "context b, for every admissible history; range exactness [ctx, ctx+1) incl. adjacent ids. HTTP routes, nu "
-        "commands and handler dispatch are covered by engines H/V where built; this check claims the Store API paths.",
-        ["partial: HTTP/handler/nu access paths are outside this check's model (see DESIGN §9)"]),
+        "commands and handler dispatch: the HTTP routes taking a context go through these store paths (C13 faithfulness); the "
+        "one route that builds its own subscription, head-follow, is probed over a streaming connection on every run.",
+        ["handler dispatch and handler output contexts are C14/C15's (engine V); nu .cat/.head scoping is exercised there through scripts"],
+        extra=lambda ctx: c06_extra(ctx)),
     "C07": seq_entry("Props/C07.v", P_CTX, {"append", "import", "remove", "reopen", "get", "head", "readsync", "read"}, 200, 3000,
         "Coq: a rejected append leaves the state unchanged; acceptance is exactly registry membership; xs.context frames "
         "accepted iff zero context, stored Forever, registered; the registry is a function of the live frames at every "
